@@ -403,11 +403,12 @@ type simpleStack struct {
 	h        dnsserver.Handler
 	minTTL   time.Duration
 	override bool
+	count    int
 }
 
-func newSimple(minTTL time.Duration, override bool) (st *simpleStack) {
-	st = &simpleStack{up: &upstream{}, minTTL: minTTL, override: override}
-	mw := cache.NewMiddleware(&cache.MiddlewareConfig{Count: 100, MinTTL: minTTL, OverrideTTL: override})
+func newSimple(minTTL time.Duration, override bool, count int) (st *simpleStack) {
+	st = &simpleStack{up: &upstream{}, minTTL: minTTL, override: override, count: count}
+	mw := cache.NewMiddleware(&cache.MiddlewareConfig{Count: count, MinTTL: minTTL, OverrideTTL: override})
 	st.h = mw.Wrap(st.up)
 
 	return st
@@ -435,7 +436,7 @@ func taken(m *dns.Msg) (sent *dns.Msg) {
 	return sent
 }
 
-func (st *simpleStack) fresh() stack     { return newSimple(st.minTTL, st.override) }
+func (st *simpleStack) fresh() stack     { return newSimple(st.minTTL, st.override, st.count) }
 func (st *simpleStack) calls() int       { return len(st.up.calls) }
 func (st *simpleStack) lastCall() upCall { return st.up.calls[len(st.up.calls)-1] }
 
@@ -447,11 +448,11 @@ type ecsStack struct {
 	twn *ecsStack
 }
 
-func newECS(minTTL time.Duration, override bool) (st *ecsStack) {
+func newECS(minTTL time.Duration, override bool, count int) (st *ecsStack) {
 	st = &ecsStack{up: &upstream{}, cm: &world.CacheManager{}, ec: &world.ErrColl{}}
 	w, err := world.New(&world.Config{
 		Cache: &dnssvc.CacheConfig{
-			Type: dnssvc.CacheTypeECS, ECSCount: 100, NoECSCount: 100, MinTTL: minTTL, OverrideCacheTTL: override,
+			Type: dnssvc.CacheTypeECS, ECSCount: count, NoECSCount: count, MinTTL: minTTL, OverrideCacheTTL: override,
 		},
 		Upstream:     st.up,
 		GeoIP:        geo{},
@@ -504,7 +505,7 @@ type mwStack struct {
 	twn      *mwStack
 }
 
-func newMW(minTTL time.Duration, override bool) (st *mwStack) {
+func newMW(minTTL time.Duration, override bool, count int) (st *mwStack) {
 	st = &mwStack{up: &upstream{}, cm: &world.CacheManager{}}
 	mw := ecscache.NewMiddleware(&ecscache.MiddlewareConfig{
 		Cloner:       agdtest.NewCloner(),
@@ -512,8 +513,8 @@ func newMW(minTTL time.Duration, override bool) (st *mwStack) {
 		CacheManager: st.cm,
 		GeoIP:        geo{},
 		MinTTL:       minTTL,
-		NoECSCount:   100,
-		ECSCount:     100,
+		NoECSCount:   count,
+		ECSCount:     count,
 		OverrideTTL:  override,
 	})
 	st.h = mw.Wrap(st.up)
@@ -615,18 +616,20 @@ func run(s *kernel.Sim, prop, cfg string) {
 	minTTL := kernel.Pick(t, []time.Duration{10 * time.Second, 60 * time.Second}, "min-ttl")
 
 	var st stack
+	// The capacity: roomy, or so small that entries are evicted all the time.
+	count := kernel.Pick(t, []int{100, 100, 1, 2, 3}, "cache-size")
 	if cfg == "simple" {
-		st = newSimple(minTTL, override)
+		st = newSimple(minTTL, override, count)
 	} else if cfg == "ecsmw" {
-		e := newMW(minTTL, override)
-		e.twn = newMW(minTTL, override)
+		e := newMW(minTTL, override, count)
+		e.twn = newMW(minTTL, override, count)
 		st = e
 	} else {
-		e := newECS(minTTL, override)
-		e.twn = newECS(minTTL, override)
+		e := newECS(minTTL, override, count)
+		e.twn = newECS(minTTL, override, count)
 		st = e
 	}
-	s.Logf("config cache=%s override=%v minTTL=%v", cfg, override, minTTL)
+	s.Logf("config cache=%s override=%v minTTL=%v size=%d", cfg, override, minTTL, count)
 
 	// Swarm: a per-run subset of names, clients and qtypes.
 	var names []string
